@@ -12,8 +12,8 @@ import (
 	"strings"
 	"sync"
 
-	"github.com/openconfig/goyang/pkg/yang"
 	gpb "github.com/openconfig/gnmi/proto/gnmi"
+	"github.com/openconfig/goyang/pkg/yang"
 	"github.com/openconfig/ygot/ygot"
 	"github.com/openconfig/ygot/ytypes"
 	"github.com/openconfig/ygot/zzverif/core"
@@ -39,7 +39,7 @@ type c21World struct {
 	pristine string
 }
 
-var c21TreeAtoms = []string{"/Top/Str=str:abc", "/Top/Pstr=str:abc", "/Top/KlStr[str:a]/V=u32:1", "/Top/LlStr=ll:[\"str:a\"]", "/Top/En=enum:RED", "/Top/U8=u8:1", "/Top/Dec=dec:-0.5", "/Top/Un=enum:BLUE", "/Top/Ols/Ol[str:a]/V=u32:1"}
+var c21TreeAtoms = []string{"/Top/Str=str:abc", "/Top/Pstr=str:abc", "/Top/KlStr[str:a]/V=u32:1", "/Top/LlStr=ll:[\"str:a\"]", "/Top/En=enum:RED", "/Top/U8=u8:1", "/Top/Dec=dec:-0.5", "/Top/Un=str:zq", "/Top/Udec=dec:-0.5", "/Top/LlUn=ll:[\"i64:-7\",\"enum:RED\"]", "/Top/Ols/Ol[str:a]/V=u32:1"}
 
 func c21NewWorld(p *core.Pkg) *c21World {
 	atoms, ok := p.AtomsByName(c21TreeAtoms)
@@ -214,6 +214,7 @@ type c21Result struct {
 	Capped      bool             `json:"capped"`
 	BoundDone   map[string]int   `json:"bound_done"`
 	DistinctSch int              `json:"distinct_schedules_sampled"`
+	Preempted   int64            `json:"preempted"` // executions with at least one preemption
 }
 
 type c21Viol struct {
@@ -306,7 +307,19 @@ func c21Explore(c *core.Ctx, p *core.Pkg, ops []c21Op, scen []int, bound int, re
 				report("thread-did-not-finish", fmt.Sprintf("thread %d completed %d of %d operations", i, len(results[i]), reps))
 			}
 		}
-		res.Outcomes[fmt.Sprintf("%d-points", len(x.Points))]++
+		pre, sw := 0, 0
+		for _, pt := range x.Points {
+			if pt.Running >= 0 && pt.Enabled[pt.Chosen] != pt.Running {
+				sw++
+				if pt.RunningEnabled {
+					pre++
+				}
+			}
+		}
+		res.Outcomes[fmt.Sprintf("%d-points/%d-switches/%d-preemptions", len(x.Points), sw, pre)]++
+		if pre > 0 {
+			res.Preempted++
+		}
 	}
 	ex.Explore()
 	res.Scenarios++
@@ -374,6 +387,7 @@ func runC21(c *core.Ctx) {
 			total.Scenarios += r.Scenarios
 			total.Executions += r.Executions
 			total.Points += r.Points
+			total.Preempted += r.Preempted
 			if r.MaxPoints > total.MaxPoints {
 				total.MaxPoints = r.MaxPoints
 			}
@@ -392,12 +406,11 @@ func runC21(c *core.Ctx) {
 		c.R.Add("evaluations", total.Executions)
 		c.R.Add("traces_validated_against_impl", total.Executions)
 		for k, v := range total.Outcomes {
-			for j := int64(0); j < 1; j++ {
-				c.R.Outcome(k)
-			}
-			_ = v
-			c.R.NonTrivial(k)
+			c.R.OutcomeN(k, v)
 		}
+		// non-trivial = schedule with at least one preemption (every schedule of the search is distinct)
+		c.R.NonTrivialN(total.Preempted)
+		c.R.Note("schedules_with_preemption", total.Preempted)
 		c.R.Note("scenarios", total.Scenarios)
 		c.R.Note("schedules_explored", total.Executions)
 		c.R.Note("scheduling_points_total", total.Points)
